@@ -950,6 +950,7 @@ func (h *hist) skeletonMoveThenFail() {
 	h.apply(nil)
 }
 
+var fixC bool       // OnIfaceStateChanged forgets the old ifindex's state on a renumbering (Model.v c_fixC)
 var fixA, fixB bool // what the tree under test does (see Model.v c_fixA / c_fixB); set by probe()
 
 func newHist(r *rng, cfg config) *hist {
@@ -999,6 +1000,12 @@ func probe() {
 	h.remove(routetable.RouteClassVXLANTunnel, "eth0", 0, 0)
 	h.apply(nil)
 	fixB = len(dp(h)) == 0
+
+	// C: cali1 shows up under a new ifindex without a deletion being reported, goes away, and the old ifindex is
+	// reused by cali2, which is up; a full resync must learn cali2
+	h = newHist(&rng{s: 12345}, cfg)
+	h.renumberThenReuse(0, 0, routetable.RouteClassLocalWorkload)
+	fixC = len(dp(h)) == 1
 }
 
 func dp(h *hist) map[string]netlink.Route { return h.dp.RouteKeyToRoute }
@@ -1016,6 +1023,44 @@ func (h *hist) skeletonVanishMidDump() {
 	h.rt.QueueResync()
 	h.emit("OQueueResync", "QueueResync()")
 	h.apply([]failItem{h.partialItem(0, [][2]int{{cid, prio}})})
+}
+
+// setLinkIdx creates a link with a given ifindex (used to reuse an ifindex that has become free)
+func (h *hist) setLinkIdx(name string, idx int, up, running bool) {
+	if _, ok := h.links[name]; ok {
+		h.dp.DelIface(name)
+	}
+	l := &linkSt{idx: idx, up: up, running: running}
+	h.links[name] = l
+	h.dp.AddIface(idx, name, up, running)
+	h.toTell[name] = true
+	h.emit(fmt.Sprintf("ESetLink \"%s\" (mkl %d %s %s)", name, idx, coqBool(up), coqBool(running)),
+		fmt.Sprintf("kernel: link %s idx=%d up=%v running=%v", name, idx, up, running))
+}
+
+// directed opening: cali1 is recreated under a new ifindex and Felix hears of the new index without the deletion
+// (OnIfaceStateChanged as resyncIface calls it); later cali1 goes away and its FIRST ifindex is reused by cali2.
+func (h *hist) renumberThenReuse(cid, prio int, class routetable.RouteClass) {
+	for _, n := range []string{"cali1", "cali2"} {
+		if _, ok := h.links[n]; ok {
+			h.delLink(n)
+			h.tell(n)
+		}
+	}
+	h.setLinkIdx("cali1", 95, true, true)
+	h.tell("cali1")
+	h.setLinkIdx("cali1", 96, true, true)
+	h.flush(95)
+	h.tell("cali1") // new index, no deletion reported
+	h.delLink("cali1")
+	h.tell("cali1")
+	h.setLinkIdx("cali2", 95, true, true) // the old ifindex, reused; Felix is not told
+	delete(h.toTell, "cali2")
+	h.update(class, "cali2", cid, prio)
+	h.rt.QueueResync()
+	h.emit("OQueueResync", "QueueResync()")
+	h.apply(nil)
+	h.toTell["cali2"] = true
 }
 
 func runHistory(r *rng, cfg config, nops int) line {
@@ -1043,6 +1088,10 @@ func (h *hist) run(nops int) line {
 		h.skeletonMoveThenFail()
 	case 2:
 		h.skeletonVanishMidDump()
+	case 3:
+		h.tags["skeleton:renumber-then-reuse"] = true
+		cid, prio := h.pickKey()
+		h.renumberThenReuse(cid, prio, pick(r, classes))
 	}
 	for i := 0; i < nops; i++ {
 		switch k := r.intn(100); {
@@ -1118,8 +1167,8 @@ func (h *hist) run(nops int) line {
 		tags = append(tags, t)
 	}
 	sort.Strings(tags)
-	coq := fmt.Sprintf("mkcase (mkcfg %s %d %d %d %d %s %s) [%s] [%s]", cfg.coqPol, cfg.table, cfg.defProto, cfg.src, cfg.grace,
-		coqBool(fixA), coqBool(fixB), strings.Join(h.ops, "; "), strings.Join(h.obs, "; "))
+	coq := fmt.Sprintf("mkcase (mkcfg %s %d %d %d %d %s %s %s) [%s] [%s]", cfg.coqPol, cfg.table, cfg.defProto, cfg.src, cfg.grace,
+		coqBool(fixA), coqBool(fixB), coqBool(fixC), strings.Join(h.ops, "; "), strings.Join(h.obs, "; "))
 	return line{Coq: coq, NT: h.applies >= 2 && (h.hits > 0 || h.churn > 0 || h.foreign > 0),
 		Key:    cfg.name + "|" + strings.Join(h.ops, ";"),
 		Sample: map[string]any{"config": cfg.name, "trace": h.sample}, Tags: tags}
@@ -1135,7 +1184,7 @@ func main() {
 	probe()
 	r := &rng{s: *seed}
 	enc := json.NewEncoder(os.Stdout)
-	_ = enc.Encode(map[string]any{"stats": map[string]any{"tree_has_fixA": fixA, "tree_has_fixB": fixB}})
+	_ = enc.Encode(map[string]any{"stats": map[string]any{"tree_has_fixA": fixA, "tree_has_fixB": fixB, "tree_has_fixC": fixC}})
 	cfgs := configs()
 	for i := 0; i < *n; i++ {
 		cfg := cfgs[r.intn(len(cfgs))]
